@@ -54,6 +54,15 @@ extern void mpt_gnode_switch(MPT_STRUCT(node) *pri, MPT_STRUCT(node) *sec)
 	sn = sec->next;
 	sv = sec->prev;
 	
+	/* adjacent nodes become neighbours of each other */
+	if (pn == sec) {
+		pn = pri;
+		sv = sec;
+	}
+	else if (sn == pri) {
+		sn = sec;
+		pv = pri;
+	}
 	/* reassign primary */
 	pri->parent = sp;
 	if ((pri->next = sn)) {
